@@ -7,7 +7,7 @@ export GOFLAGS=-mod=mod GOPROXY=off GOSUMDB=off GOTOOLCHAIN=local
 cd /repo
 git diff --quiet || { echo "repo dirty"; exit 2; }
 git apply "$PATCH" || { echo "patch does not apply"; exit 2; }
-trap 'cd /repo && git checkout -- . && git clean -fdq -- tests internal . 2>/dev/null; cd /verif && git checkout -q -- evidence 2>/dev/null; echo "[reverted]"' EXIT
+trap 'cd /repo && git checkout -- . && git clean -fdq -- tests internal . 2>/dev/null; cd /verif && git checkout -q -- evidence replays 2>/dev/null; echo "[reverted]"' EXIT
 go build ./... && go test -vet=off -count=1 ./... 2>&1 | tail -3
 if [ "$DEMO" != "-" ]; then
   dest=tests/$(basename "$DEMO"); case "$DEMO" in */internal/*) dest=${DEMO#/tmp/wt_*/};; esac
